@@ -6,7 +6,7 @@ from impl import quiet, UnmatchedInstancePair, NaiveThresholdMatching, MaximizeM
 from impl import IM
 from panoptica.utils.instancelabelmap import InstanceLabelMap
 
-RULE = ("unmatched instance-map pairs x dtype {uint8,16,32,64} x label sets placed at 2^k-1-j (k=8,16) and with gaps x "
+RULE = ("memory layouts {C, Fortran, transposed view, negative strides} chosen independently for the two maps; labels of 4*10^7 with relabelling chains; unmatched instance-map pairs x dtype {uint8,16,32,64} x label sets placed at 2^k-1-j (k=8,16) and with gaps x "
         "{label map of the real matchers (threshold, many-to-one, merge), random functional label maps}; "
         "non-trivial = at least one unmatched prediction, or max reference label + #unmatched >= 2^bits - 2")
 
@@ -116,6 +116,41 @@ def gen_case(rng):
     return p2, r2
 
 
+def relayout(rng, a):
+    k = rng.choice(["C", "C", "F", "T", "neg"])
+    if k == "F":
+        return np.asfortranarray(a)
+    if k == "T" and a.ndim >= 2:
+        return np.ascontiguousarray(a.T).T          # transposed view of a C array with the same logical content
+    if k == "neg":
+        return np.ascontiguousarray(a[::-1])[::-1]
+    return a
+
+
+def big_label_cases(ctx):
+    """labels beyond 2^25 in uint32/uint64 with relabelling chains (pred 1 -> ref 2 while pred 2 -> ref 1; an
+    unmatched prediction whose own label equals the first fresh label)"""
+    big = 40_000_000
+    for dt in (np.uint32, np.uint64):
+        ref = np.zeros((1, 12), dt)
+        pred = np.zeros((1, 12), dt)
+        ref[0, 0:3] = 1
+        ref[0, 4:7] = 2
+        ref[0, 8:10] = big
+        pred[0, 0:3] = 2
+        pred[0, 4:7] = 1
+        pred[0, 8:10] = big
+        one_case(ctx, pred, ref, [[2, 1], [1, 2], [big, big]], "corpus.big-swap")
+        ref = np.zeros((1, 12), dt)
+        pred = np.zeros((1, 12), dt)
+        ref[0, 0:3] = big
+        pred[0, 0:3] = 5
+        pred[0, 4:6] = big + 1
+        pred[0, 7:9] = 3
+        one_case(ctx, pred, ref, [[5, big]], "corpus.big-fresh")
+        ctx.count("labels>=2^25")
+
+
 def run_cases(ctx, n, tag):
     rng = ctx.rng
     for i in range(n):
@@ -123,6 +158,7 @@ def run_cases(ctx, n, tag):
         if c is None:
             continue
         pred, ref = c
+        pred, ref = relayout(rng, pred), relayout(rng, ref)
         pl = [int(x) for x in np.unique(pred) if x]
         rl = [int(x) for x in np.unique(ref) if x]
         r = rng.random()
@@ -176,6 +212,7 @@ def corpus(ctx):
 
 def run(ctx):
     corpus(ctx)
+    big_label_cases(ctx)
     run_cases(ctx, ctx.scale(1200, 12000), "rand")
 
 
